@@ -229,15 +229,25 @@ func (w *World) ap(v ssa.Value, depth int) string {
 	switch x := v.(type) {
 	case *ssa.Parameter:
 		fn := x.Parent()
+		// parameters of closures are qualified by nesting depth, so that a closure's own
+		// parameters and those of the enclosing function(s) it captures read differently
+		prefix := ""
+		depthN := 0
+		for f := fn; f.Parent() != nil; f = f.Parent() {
+			depthN++
+		}
+		if depthN > 0 {
+			prefix = fmt.Sprintf("c%d.", depthN)
+		}
 		for i, p := range fn.Params {
 			if p == x {
 				if fn.Signature.Recv() != nil {
 					if i == 0 {
-						return "recv"
+						return prefix + "recv"
 					}
-					return fmt.Sprintf("arg%d", i-1)
+					return fmt.Sprintf("%sarg%d", prefix, i-1)
 				}
-				return fmt.Sprintf("arg%d", i)
+				return fmt.Sprintf("%sarg%d", prefix, i)
 			}
 		}
 		return x.Name()
